@@ -609,12 +609,14 @@ def rule_OW6_serial(ctx, mod, E):
     for lp, b_ in find("for _n_ in _L_:\n    if _n_ in _x_.keys():\n"
                        "        setattr(_o_, '_' + _n_, _x_.pop(_n_))", fd):
         L = b_['_L_']
-        lst = au.const_list(L) if not isinstance(L, str) else None
-        if isinstance(L, str):
+        lst = None
+        if L.isidentifier():
             defs = [n.value for n in ast.walk(fd) if isinstance(n, ast.Assign)
                     and ast.unparse(n.targets[0]) == L and
                     n.lineno < lp.lineno]
             lst = au.const_list(defs[-1]) if defs else None
+        else:
+            lst = au.const_list(ast.parse(L, mode='eval').body)
         if lst and 'computed' in lst:
             ok = True
     ctx.check('C12.OW6.serial', 'from_dict restores the flag only if stored',
